@@ -30,6 +30,16 @@ for S in "$@"; do
     timeout 60 target/debug/noulith $demo > /tmp/confirm/mut.out 2>/dev/null; rc=$?
     if diff -q /tmp/confirm/base.out /tmp/confirm/mut.out >/dev/null && [ $rc -eq 0 ]; then mut_differs=false; else mut_differs=true; fi
   fi
+  # a Rust demo test (tests/seed_demo_test.rs): must pass on the unmodified tree and fail with the change
+  if [ -f $S/demo_test.rs ]; then
+    git stash -q; cp $S/demo_test.rs tests/seed_demo_test.rs
+    if timeout 1200 cargo test --offline --test seed_demo_test >/tmp/confirm/dt_base.log 2>&1; then dt_base=true; else dt_base=false; fi
+    rm -f tests/seed_demo_test.rs; git stash pop -q; cp $S/demo_test.rs tests/seed_demo_test.rs
+    if timeout 1200 cargo test --offline --test seed_demo_test >/tmp/confirm/dt_mut.log 2>&1; then dt_mut=false; else dt_mut=true; fi
+    rm -f tests/seed_demo_test.rs
+    if [ "$base_ok" = null ]; then base_ok=$dt_base; fi
+    if [ "$mut_differs" = null ]; then mut_differs=$dt_mut; fi
+  fi
   cargo nextest run --workspace --no-fail-fast --test-threads 8 --offline 2>&1 | grep -E "^\s+PASS" | awk '{print $NF}' | sort > /tmp/confirm/mut_tests.txt
   lost=$(comm -23 /tmp/confirm/base_tests.txt /tmp/confirm/mut_tests.txt | tr '\n' ' ')
   echo "{\"applies\": true, \"compiles\": $compiles, \"demo_matches_expected_on_unmodified\": $base_ok, \"demo_differs_with_change\": $mut_differs, \"baseline_tests_passing\": $(wc -l < /tmp/confirm/base_tests.txt), \"tests_passing_with_change\": $(wc -l < /tmp/confirm/mut_tests.txt), \"tests_lost\": \"$lost\", \"repo_head\": \"$(git rev-parse --short HEAD)\"}" > $S/confirm.json
